@@ -187,6 +187,13 @@ def subst_names(v, mapping):
         c = v.conc()
         if c is not None and c.lower() in mapping: return mapping[c.lower()](v)
         return v
+    if isinstance(v, _A) and v.name.split('::')[-1] == 'Id' and len(v.f) == 3 and isinstance(v.f[1], _S):
+        # an identifier has two views: the spelling as written (f0) and the lower-cased spelling (f1) that equality and hashing use
+        c = v.f[1].conc()
+        if c is not None and c in mapping:
+            r = mapping[c](v.f[0])
+            v.f[0] = r; v.f[1] = r.lower if getattr(r, 'lower', None) is not None else r
+        return v
     if isinstance(v, (_A, _E)): v.f = [subst_names(x, mapping) for x in v.f]; return v
     if isinstance(v, _V): v.items = [subst_names(x, mapping) for x in v.items]; return v
     if isinstance(v, _R):
